@@ -1151,6 +1151,8 @@ func replayLine(o *hx.Out, line string) {
 		from, _ := strconv.Atoi(a[2])
 		to, _ := strconv.Atoi(a[3])
 		runSwapNode(o, parseInts(a[0], ","), parseInts(a[1], ","), from, to)
+	case "elect": // nodes md idx shards target probeMid failFirst: real shard controllers, failing swap election (electleg.go)
+		replayElect(o, a)
 	case "pipe": // nodes md idx shards rounds slow: balancer rounds against a slow action worker (pipeleg.go)
 		replayPipe(o, a)
 	case "place": // nodes md rules rf: through the real coordinator (coordleg.go)
@@ -1190,4 +1192,5 @@ func main() {
 	// the coordinator-glue leg has its own stream, so that the cases above do not depend on it
 	genCoordLeg(hx.NewRng(f.Seed+0x5eed19).Fork(), o, f.N/25+6)
 	genPipeLeg(hx.NewRng(f.Seed+0x91be19).Fork(), o, f.N/12+12)
+	genElectLeg(hx.NewRng(f.Seed+0xe1ec19).Fork(), o, f.N/15+10)
 }
